@@ -66,7 +66,9 @@ func window(c SCert) (va, vb uint64) {
 var keyIDClasses = []string{"touchless", "touch", "cached", "hw_firefighter", "agent_firefighter", "nonce", "headless", "default_touch",
 	"missing_field", "version2", "inconsistent", "free_text", "empty", "empty_object", "json_array",
 	// other spellings of the same JSON document (whether they decode is keyid.Unmarshal's verdict, see ident)
-	"touch_leading_space", "touchless_leading_newline", "touch_trailing_space", "touch_pretty", "touch_reordered", "touch_extra_field", "touch_escaped"}
+	"touch_leading_space", "touchless_leading_newline", "touch_trailing_space", "touch_pretty", "touch_reordered", "touch_extra_field", "touch_escaped",
+	// long documents
+	"touch_many_principals", "touchless_long_host"}
 
 func keyIDText(class, role string) string {
 	base := func(ff, hw, hl, nonce bool, tp, ver int) string {
@@ -110,6 +112,14 @@ func keyIDText(class, role string) string {
 	case "touch_extra_field":
 		b := base(false, true, false, false, 2, 1)
 		return strings.TrimSuffix(b, "}") + `,"note":"x"}`
+	case "touch_many_principals":
+		var prins []string
+		for i := 0; i < 120; i++ {
+			prins = append(prins, fmt.Sprintf(`"principal-%03d"`, i))
+		}
+		return strings.Replace(base(false, true, false, false, 2, 1), `"prins":["user"]`, `"prins":[`+strings.Join(prins, ",")+`]`, 1)
+	case "touchless_long_host":
+		return strings.Replace(base(false, false, false, false, 1, 1), `"reqHost":"host"`, `"reqHost":"`+strings.Repeat("a-long-host-label.", 150)+`example.com"`, 1)
 	case "touch_escaped":
 		return strings.Replace(base(false, true, false, false, 2, 1), `"reqUser":"user"`, `"reqUser":"\u0075ser"`, 1)
 	case "empty":
